@@ -10,7 +10,7 @@ From stdpp Require Import gmap.
 Definition data_outs (n : node) : list name := firstn (n_ndata n) (n_outputs n).
 
 Definition resuming (n : node) (st : state) : bool :=
-  is_interrupt n &&
+  is_interrupt_node n &&
   match execs st !! n_name n with None => true | Some _ => false end &&
   negb (match data_outs n with [] => true | _ => false end) &&
   forallb (fun o => match vals st !! o with Some _ => true | None => false end) (data_outs n).
